@@ -134,7 +134,7 @@ func c12Sig(kind string, r c12Rule, peer string, xff bool) string {
 
 func TestVerifC12Rules(t *testing.T) {
 	L := ev.Begin("C12", "c12-rules", "exploration",
-		"every allow/deny list of 1..2 items from 17 items (v4/v6 blocks and single addresses, blocks nested in wider ones with the same base address, case/space variants, /33, /129, bad address, empty, unknown type, missing type, double slash) x 10 peers (incl. zone-scoped and v4-mapped v6) x X-Forwarded-For in {none, inside, outside, inside+outside, garbage, peer itself, chains with unparsable elements before/between addresses}, through NewTable opts -> Target.AccessDeniedHTTP and AccessDeniedTCP; also allow+deny together. oracle (netip): allow admits only inside the well-formed blocks, deny rejects inside them, a malformed item never widens. non-trivial = rule with >=1 well-formed block and a peer inside it, or a malformed item")
+		"every allow/deny list of 1..2 items from 17 items (v4/v6 blocks and single addresses, blocks nested in wider ones with the same base address, case/space variants, /33, /129, bad address, empty, unknown type, missing type, double slash) x 10 peers (incl. zone-scoped and v4-mapped v6) x X-Forwarded-For in {none, inside, outside, inside+outside, garbage, peer itself, chains with unparsable elements before/between addresses, the chain spread over two header lines, elements with port or brackets}, through NewTable opts -> Target.AccessDeniedHTTP and AccessDeniedTCP; also allow+deny together. oracle (netip): allow admits only inside the well-formed blocks, deny rejects inside them, a malformed item never widens. non-trivial = rule with >=1 well-formed block and a peer inside it, or a malformed item")
 	var rules []c12Rule
 	for _, k := range []string{"allow", "deny"} {
 		for i, a := range c12Items {
@@ -146,7 +146,9 @@ func TestVerifC12Rules(t *testing.T) {
 			}
 		}
 	}
-	xffs := []string{"", "10.9.9.9", "172.16.0.1", "10.9.9.9, 172.16.0.1", "garbage", "@peer", " 10.9.9.9 ,, ", "unknown, 172.16.0.1", "10.9.9.9:4711, 172.16.0.1", "garbage, 10.9.9.9", "unknown, 10.9.9.9, x, 172.16.0.1"}
+	xffs := []string{"", "10.9.9.9", "172.16.0.1", "10.9.9.9, 172.16.0.1", "garbage", "@peer", " 10.9.9.9 ,, ", "unknown, 172.16.0.1", "10.9.9.9:4711, 172.16.0.1", "garbage, 10.9.9.9", "unknown, 10.9.9.9, x, 172.16.0.1",
+		// the chain spread over two header lines, and elements that carry a port or brackets
+		"10.9.9.9\n172.16.0.1", "172.16.0.1\n10.9.9.9", "172.16.0.1:5555", "10.9.9.9:80, [2001:db8::1]:443", "[fe80::1]"}
 	for _, r := range rules {
 		opt := r.kind + "=" + strings.ReplaceAll(strings.Join(r.items, ","), " ", " ")
 		// spaces cannot be written inside opts "..." (fields are split on white space): use the
@@ -170,8 +172,12 @@ func TestVerifC12Rules(t *testing.T) {
 				if xf == "@peer" {
 					hdr = peer
 				}
-				for _, e := range strings.Split(hdr, ",") {
+				for _, e := range strings.Split(strings.ReplaceAll(hdr, "\n", ","), ",") {
 					e = strings.TrimSpace(e)
+					if ap, err := netip.ParseAddrPort(e); err == nil {
+						e = ap.Addr().String() // an address listed with its port is still that address
+					}
+					e = strings.TrimSuffix(strings.TrimPrefix(e, "["), "]")
 					if a, err := netip.ParseAddr(e); err == nil && e != peer {
 						addrs = append(addrs, a)
 					}
@@ -180,7 +186,7 @@ func TestVerifC12Rules(t *testing.T) {
 				req := vfReq("foo.com", "/p", false)
 				req.RemoteAddr = net.JoinHostPort(peer, "4711")
 				if hdr != "" {
-					req.Header.Set("X-Forwarded-For", hdr)
+					req.Header["X-Forwarded-For"] = strings.Split(hdr, "\n")
 				}
 				var denied bool
 				msg, _, pan := ev.Guard(func() { denied = tg.AccessDeniedHTTP(req) })
